@@ -145,6 +145,13 @@ def enumerate_cases(tier):
                     yield {"kind": "reduce", "fn": fn, "batched": batched,
                            "states": [{"t": t, "n": 3, "seed": 11 + i, "rank": 3} for i in range(2 if batched else 1)],
                            "indices": list(idx), "iface": "numpy", "c64": False, "check": False, "general": False}
+    # every ordered 3-subset of a 4-qubit state: the smallest size at which a proper subset can be requested in an
+    # order whose sorting permutation is not its own inverse (argsort vs. rank mix-ups are invisible below that)
+    for fn in ("reduce_dm", "reduce_statevector", "partial_trace"):
+        for idx in itertools.permutations(range(4), 3 if fn != "partial_trace" else 1):
+            t = "haar" if fn == "reduce_statevector" else "ginibre"
+            yield {"kind": "reduce", "fn": fn, "batched": False, "states": [{"t": t, "n": 4, "seed": 23, "rank": 4}],
+                   "indices": list(idx), "iface": "numpy", "c64": False, "check": False, "general": False}
     for wires in itertools.permutations(["a", 0, "b"], 2):
         for order in itertools.permutations(["a", 0, "b", 1]):
             yield {"kind": "expand", "order": list(order), "wires": list(wires), "fmt": "dense", "batch": 0, "iface": "numpy",
